@@ -217,7 +217,14 @@ fn main() {
                     .expect("spawn")
             })
             .collect();
-        let outs: Vec<Vec<Outcome>> = handles.into_iter().map(|h| h.join().expect("caller thread")).collect();
+        let mut outs: Vec<Vec<Outcome>> = handles.into_iter().map(|h| h.join().expect("caller thread")).collect();
+        // epilogue: after the concurrent phase, the listed calls once more, sequentially, on one
+        // thread - whatever the interleaving left behind in process-wide state shows here
+        if let Some(ep) = plan["epilogue"].as_array() {
+            let ep = ep.clone();
+            let h = std::thread::Builder::new().stack_size(STACK).spawn(move || ep.iter().map(run_call).collect::<Vec<_>>()).expect("spawn");
+            outs.push(h.join().expect("epilogue thread"));
+        }
         let out = json!({
             "seam": cfg!(graphql_client_verif),
             "simulated": false,
